@@ -360,7 +360,8 @@ def d5_budget(facts, rep):
         ok = bool(cs) and all(fn.n(fn.strip(c[2]['a'][0])).get('k') == 'binop' and fn.n(fn.strip(c[2]['a'][0]))['op'] == '-' and
                               fn.cv(fn.n(fn.strip(c[2]['a'][0]))['r']) == 1 for c in cs if c[2].get('a'))
         rep.ob('D5', 'K10', fn, 'a parallelism limit L allows L-1 workers (the calling thread counts)', ok, 'worker limit is not value - 1')
-    rep.floor('D5', 12, 'budget state')
+    d5_flag_changes_reported(facts, rep)
+    rep.floor('D5', 14, 'budget state')
 
 
 def d6_join(facts, rep):
@@ -424,3 +425,56 @@ def d7_scope_symmetry(facts, rep):
                            'scope\'s settings (for nested_arena_context: isolation tag and context of task_arena::execute) after the '
                            'scope ended: %s' % (name, wit), key_extra='%s.%s' % (cls, name))
     rep.floor('D7', 4, 'saved members of scope classes')
+
+
+def d5_flag_changes_reported(facts, rep):
+    """An arena's demand is held by the threading control as two running sums (workers requested, mandatory requests) that the arena
+    adjusts by deltas.  The arena's own view is the pair of flags my_pool_state / my_mandatory_concurrency: each successful
+    change of a flag (test_and_set / try_clear_if returning true) is one delta that must reach request_workers() - otherwise the
+    sums drift: a mandatory request that is never revoked keeps a worker for the arena for the rest of its life (visible under
+    max_allowed_parallelism == 1: a second thread runs user work; the market grants a worker to an arena with no demand).
+    Rule: from every edge on which such a flag operation is known to have succeeded, every path to the function exit passes
+    a call of request_workers."""
+    FLAGS = ('my_pool_state', 'my_mandatory_concurrency')
+    n = 0
+    for fn in facts.fns.values():
+        if (fn.cls or '') != R1 + 'arena' and not (fn.kind == 'lambda' and (facts.fns.get(fn.d.get('lparent')) is not None and
+                                                                             (facts.fns[fn.d['lparent']].cls or '') == R1 + 'arena')):
+            continue
+        ops = [c for c in calls(fn) if (c[3] or {}).get('n') in ('test_and_set', 'try_clear_if') and last_member(fn, c[2].get('obj', -1)) in FLAGS]
+        if not ops:
+            continue
+        defs = Defs(fn)
+        rq = set(c[0] for c in calls_named(fn, ('request_workers',)))
+        for pos, sx, node, d in ops:
+            def succeeded(a, truth, sx=sx):
+                return truth and fn.strip(resolve_cond_source(fn, defs, a)) == sx
+            e = edges_where(fn, succeeded)
+            if not e:
+                continue
+            n += 1
+            ok = True
+            wit = ''
+            # path-sensitive in the local flags: `if (a || b) { ... }` regions
+            from engine.rules import product_walk_from, bool_vars_tracker
+            on_elem, on_edge = bool_vars_tracker(fn)
+            for (b, si) in e:
+                # the edge itself tells the tracker that the variable holding the result is true
+                st0 = on_edge((), b, si)
+                if st0 is None:
+                    continue
+
+                def elem_tr(state, p_, e_):
+                    if p_ in rq:
+                        return None
+                    return on_elem(state, e_)
+                visits, exits = product_walk_from(fn, (fn.blocks[b]['succ'][si], -1), st0, elem_tr, on_edge)
+                if exits:
+                    ok = False
+                    wit = 'the exit is reached without request_workers()'
+            rep.ob('D5', 'K3', fn, 'a successful %s of %s is reported to the threading control on every path' % (d.get('n'), last_member(fn, node.get('obj', -1))),
+                   ok, 'the flag changed but the matching delta is not always sent (%s): the control\'s running sums drift - e.g. a mandatory request '
+                   'stays for ever and the arena keeps a worker although nothing is enqueued' % wit, ln=node['ln'],
+                   key_extra='flag|%s|%s' % (fn.p, node['ln']))
+    if n < 3:
+        raise AnalysisBroken('arena flag operations (test_and_set / try_clear_if) with a tested result: %d found' % n)
